@@ -42,6 +42,44 @@ def dirs3d(z, order, X, Y):
     return [math.cos(a) * X + math.sin(a) * Y for a in branches(z, order)]
 
 
+def first_solve_abs(obs):
+    out = {}
+    if "solve" in obs:
+        for k, i in enumerate(obs["free"]):
+            if k < len(obs["solve"]["x"]):
+                out[i] = abs(complex(*obs["solve"]["x"][k]))
+    return out
+
+
+def has_parallel_unit_field(obs):
+    """(sigma_min / sigma_max, null vector scaled to modulus ~1, spread of its moduli) of the observed operator"""
+    n = obs["lap_shape"][0]
+    L = dense(obs["lap"], n)
+    if n == 0:
+        return None
+    u, sv, vh = np.linalg.svd(L)
+    p = vh[-1].conj()
+    mods = np.abs(p)
+    if mods.max() == 0:
+        return None
+    p = p / mods.mean()
+    return float(sv[-1] / sv[0]) if sv[0] > 0 else 0.0, p, float(np.abs(np.abs(p) - 1).max())
+
+
+def classify_crash(case, obs):
+    """the field computation raised: -> (key, message, extra) ; the known class is an INPUT class, not an exception text:
+    face-based field, closed surface, no feature edge (eigen path), and the connection Laplacian that was assembled is
+    singular with a null vector of constant modulus (a parallel unit field exists: trivial order-fold holonomy)"""
+    err = obs["crash"]["error"]
+    if case["elem"] == "faces" and obs["n_boundary_edges"] == 0 and len(obs["feat"]) == 0:
+        r = has_parallel_unit_field(obs)
+        if r is not None and r[0] < 1e-12 and r[2] < 1e-6:
+            return ("crash/singular-operator", "the implementation raised %s: the connection Laplacian of this closed surface has the "
+                    "parallel unit field as null vector (sigma_min/sigma_max = %.2g) and is factorised with shift 0" % (err, r[0]),
+                    {"parallel": [[float(z.real), float(z.imag)] for z in r[1]]})
+    return ("crash", "the implementation raised %s" % err, None)
+
+
 def check(case, obs):
     fails = []
     elem, order = case["elem"], case["order"]
@@ -53,43 +91,51 @@ def check(case, obs):
     fixed, free = obs["fixed"], obs["free"]
     has_feat = len(obs["feat"]) > 0
 
-    # ---- every value is a number
-    if not np.all(np.isfinite(final)):
-        i = int(np.argmin(np.isfinite(final)))
-        if case["n_smooth"] > 0 and has_feat and np.all(np.isfinite(var0)) and "solve" in obs \
-                and np.all(np.isfinite(np.array(obs["solve"]["x"], dtype=float))):
-            return [("unit/nan-smoothing", "element %d is NaN after the smoothing solves (the first solve was finite): "
-                                           "lapI - alpha*AI is singular for the estimated attach weight alpha" % i)]
-        return [("unit/nonfinite", "element %d of the field is not a finite number" % i)]
-    # ---- unit modulus on every element
-    mod = np.abs(final)
-    bad = [i for i in range(n) if abs(mod[i] - 1) > 1e-8]
-    if bad:
-        i = bad[0]
-        if mod[i] < 1e-8:
-            cs = vertex_contributions(case, obs, i) if (elem == "vertices" and has_feat and i in set(fixed)) else []
-            guarded = case.get("smooth_normals", True) and order % 2 != 1
-            if len(cs) >= 2 and abs(sum(cs)) < 1e-6 and guarded:
-                fails.append(("unit/zero-constraint-guarded-branch",
-                              "element %d (constrained) has modulus %.3g: in the even-order smooth_normals branch a contribution "
-                              "that would cancel the accumulated constraint must be skipped, yet the constraint is 0" % (i, mod[i])))
-            elif len(cs) >= 2 and abs(sum(cs)) < 1e-6:
-                fails.append(("unit/zero-constraint", "element %d (constrained) has modulus %.3g: the constraints of its feature "
-                                                      "edges cancel and are left at 0" % (i, mod[i])))
+    # ---- every value is a number; unit modulus on every element.  EVERY offending element is classified.
+    solved = first_solve_abs(obs)      # element -> |x| of the first linear solve (free elements of the bordered branch)
+    fixedset = set(fixed) if has_feat else set()
+    for i in range(n):
+        if not np.isfinite(final[i]):
+            sv = obs.get("smooth_sv")
+            if (case["n_smooth"] > 0 and has_feat and i not in fixedset and i in solved and np.isfinite(solved[i])
+                    and sv is not None and sv < 1e-9):
+                fails.append(("unit/nan-smoothing", "element %d is NaN after the smoothing solves: the first solve was finite and "
+                                                    "the smoothing matrix lapI - alpha*AI is singular (sigma_min/sigma_max = %.2g)" % (i, sv)))
             else:
-                fails.append(("unit/zero-solution", "element %d has modulus %.3g after normalisation (solved value below the "
-                                                    "1e-10 threshold is left as it is)" % (i, mod[i])))
+                fails.append(("unit/nonfinite", "element %d of the field is not a finite number" % i))
+            continue
+        mod_i = abs(final[i])
+        if abs(mod_i - 1) <= 1e-8:
+            continue
+        if mod_i >= 1e-8:
+            fails.append(("unit/modulus", "element %d has modulus %.12g after normalisation" % (i, mod_i)))
+            continue
+        cs = vertex_contributions(case, obs, i) if (elem == "vertices" and i in fixedset) else []
+        cancels = len(cs) >= 2 and abs(sum(cs)) < 1e-6 and abs(var0[i]) < 1e-8
+        guarded = case.get("smooth_normals", True) and order % 2 != 1
+        if cancels and guarded:
+            fails.append(("unit/zero-constraint-guarded-branch",
+                          "element %d (constrained) has modulus %.3g: in the even-order smooth_normals branch a contribution "
+                          "that would cancel the accumulated constraint must be skipped, yet the constraint is 0" % (i, mod_i)))
+        elif cancels:
+            fails.append(("unit/zero-constraint", "element %d (constrained) has modulus %.3g: the constraints of its feature "
+                                                  "edges cancel (plain sum) and are left at 0" % (i, mod_i)))
+        elif has_feat and i not in fixedset and i in solved and solved[i] <= 1.0000001e-10:
+            fails.append(("unit/zero-solution", "free element %d has modulus %.3g: its solved value %.3g is below the 1e-10 "
+                                                "threshold and is left as it is" % (i, mod_i, solved[i])))
         else:
-            fails.append(("unit/modulus", "element %d has modulus %.12g after normalisation" % (i, mod[i])))
+            fails.append(("unit/zero-unexplained", "element %d (%s) has modulus %.3g although %s"
+                          % (i, "constrained" if i in fixedset else "free", mod_i,
+                             "its constraint is %.3g" % abs(var0[i]) if i in fixedset else
+                             ("its solved value was %.3g" % solved[i] if i in solved else "no linear solve produced it"))))
 
     # ---- constrained elements stay at their constraint
     if has_feat:
         for i in fixed:
             z0 = var0[i]
             want = z0 / abs(z0) if abs(z0) > 1e-10 else z0
-            if abs(final[i] - want) > 1e-9:
+            if np.isfinite(final[i]) and abs(final[i] - want) > 1e-9:
                 fails.append(("constraint/moved", "constrained element %d moved from %r to %r" % (i, complex(want), complex(final[i]))))
-                break
 
     # ---- vertex-based field: the constraint of a feature vertex is the normalised sum of the order-th powers of the
     #      directions of its feature edges (skipped where the edges conflict: the accumulation rule then depends on the
@@ -213,6 +259,9 @@ def check(case, obs):
     if elem == "faces":
         s = np.array(obs["singuls"])
         chi = euler_char(case, obs)
+        # Gauss-Bonnet (the named hypothesis of C18_index_sum, C07's theorem): the defects handed to flag_singularities add up to 2 pi chi
+        if abs(sum(obs["defect"]) - 2 * math.pi * chi) > 1e-8 * max(1, len(obs["defect"])):
+            fails.append(("index/gauss-bonnet", "the angle defects add up to %.12g, 2 pi chi = %.12g" % (sum(obs["defect"]), 2 * math.pi * chi)))
         unflagged = int(np.sum(s == 0))
         slack = unflagged * 1e-3 * 2 / math.pi + 1e-6
         if abs(s.sum() - 4 * chi) > slack:
@@ -291,7 +340,7 @@ def vertex_contributions(case, obs, v):
     return out
 
 
-def _tiny_solved(obs, rel=1e-6):
+def _tiny_solved(obs, rel=1e-7):
     """elements whose first-solve value is numerically zero (relative to the largest solved value)"""
     out = set()
     if "solve" in obs and obs["solve"]["x"]:
@@ -303,9 +352,57 @@ def _tiny_solved(obs, rel=1e-6):
     return out
 
 
+def guarded_outcomes(cs):
+    """every value the accumulation `if abs(var + c) > 1e-10: var += c` (then normalise if abs > 1e-8) can end with,
+    over the orders in which the contributions may arrive"""
+    import itertools
+    outs = []
+    for perm in itertools.permutations(range(len(cs))) if len(cs) <= 5 else [tuple(range(len(cs)))]:
+        var = 0j
+        for k in perm:
+            if abs(var + cs[k]) > 1e-10:
+                var += cs[k]
+        if abs(var) > 1e-8:
+            var /= abs(var)
+        if not any(abs(var - o) < 1e-7 for o in outs):
+            outs.append(var)
+    return outs
+
+
+def vertex_is_flat(case, v):
+    V = np.array(case["V"], dtype=float)
+    ns = []
+    for f in case["F"]:
+        if v in f:
+            nrm = np.cross(V[f[1]] - V[f[0]], V[f[2]] - V[f[0]])
+            ns.append(nrm / np.linalg.norm(nrm))
+    return all(float(a @ b) > 1 - 1e-9 for a in ns for b in ns)
+
+
+def face_edge_powers(case, obs, t, power):
+    """u_e ** power for every feature edge e of face t, u_e its unit direction (as stored) in the basis of t"""
+    V = np.array(case["V"], dtype=float)
+    X, Y = np.array(obs["bases"][t][0]), np.array(obs["bases"][t][1])
+    eid = {}
+    for k, (a, b) in enumerate(obs["edges"]):
+        eid[(a, b)] = eid[(b, a)] = k
+    fe = set(obs["feat"])
+    f = case["F"][t]
+    out = []
+    for k in range(3):
+        e = eid.get((f[k], f[(k + 1) % 3]))
+        if e in fe:
+            a, b = obs["edges"][e]
+            ed = V[b] - V[a]
+            c = complex(ed @ X, ed @ Y)
+            out.append((c / abs(c)) ** power)
+    return out
+
+
 def compare_runs(case, obs, case2, obs2, vperm, fperm):
     """The two runs (same surface, renumbered vertices / rotated faces / shuffled face list), measured against the mesh's
-    own geometry.  Returns None or (class_key, message)."""
+    own geometry.  Returns the list of (class_key, message): EVERY element whose constraint differs is classified, each
+    known class by its recorded mechanism; if all constraints agree, every element whose frame differs."""
     order = case["order"]
     elem = case["elem"]
     f1 = [complex(a, b) for a, b in obs["final"]]
@@ -313,75 +410,92 @@ def compare_runs(case, obs, case2, obs2, vperm, fperm):
     z1 = [complex(a, b) for a, b in obs["var0"]]
     z2 = [complex(a, b) for a, b in obs2["var0"]]
     TOLM = 1e-6
+    out = []
+    tiny1, tiny2 = _tiny_solved(obs), _tiny_solved(obs2)
     if elem == "faces":
         ffe = face_feature_edges(case, obs)
-        worst0, at0, worst, at = 0.0, None, 0.0, None
+        cdiff, fdiff = [], []
         for i in range(len(f1)):
             j = fperm[i]
             if abs(abs(z1[i]) - 1) < 1e-6 and abs(abs(z2[j]) - 1) < 1e-6:
                 d = _dir_diff(dirs3d(z1[i], order, *obs["bases"][i]), dirs3d(z2[j], order, *obs2["bases"][j]))
-                if d > worst0:
-                    worst0, at0 = d, i
+                if d > TOLM:
+                    cdiff.append((i, d))
             elif abs(abs(z1[i]) - abs(z2[j])) > 1e-6:
-                worst0, at0 = 9.0, i
+                cdiff.append((i, 9.0))
             if abs(abs(f1[i]) - 1) < 1e-6 and abs(abs(f2[j]) - 1) < 1e-6:
                 d = _dir_diff(dirs3d(f1[i], order, *obs["bases"][i]), dirs3d(f2[j], order, *obs2["bases"][j]))
-                if d > worst:
-                    worst, at = d, i
-        if worst0 > TOLM:
-            key = "gauge/two-feature-edge-face" if len(ffe[at0]) >= 2 else "gauge/constraint"
-            return key, ("after renumbering the vertices / rotating the faces the constraint of face %d (%d feature edges) points in "
-                         "different directions (difference %.3g, order %d)" % (at0, len(ffe[at0]), worst0, order))
-        if worst > TOLM:
-            if at in _tiny_solved(obs) or fperm[at] in _tiny_solved(obs2):
-                return "unit/zero-solution", ("the solved value at face %d is numerically zero (just above the 1e-10 threshold): its "
-                                              "normalised direction is round-off noise and differs between numberings" % at)
-            return "gauge/numbering", ("after renumbering the vertices / rotating the faces the frame of face %d differs by %.3g "
-                                       "although all constraints agree (order %d)" % (at, worst, order))
-        return None
+                if d > TOLM:
+                    fdiff.append((i, d))
+        for i, d in cdiff:
+            j = fperm[i]
+            # mechanism of the known class: >= 2 feature edges, and in each run the constraint is (unit direction)**4 of ONE of them
+            c1 = face_edge_powers(case, obs, i, 4)
+            c2 = face_edge_powers(case2, obs2, j, 4)
+            mech = (len(ffe[i]) >= 2 and any(abs(z1[i] - c) < 1e-7 for c in c1) and any(abs(z2[j] - c) < 1e-7 for c in c2))
+            key = "gauge/two-feature-edge-face" if mech else "gauge/constraint"
+            out.append((key, "after renumbering the vertices / rotating the faces the constraint of face %d (%d feature edges) points in "
+                             "different directions (difference %.3g, order %d)%s"
+                        % (i, len(ffe[i]), d, order, ": each run kept the fourth power of a different one of its edges" if mech else "")))
+        if not cdiff:
+            for i, d in fdiff:
+                if i in tiny1 or fperm[i] in tiny2:
+                    out.append(("unit/zero-solution-noise", "the solved value at face %d is numerically zero (just above the 1e-10 "
+                                "threshold): its normalised direction is round-off noise and differs between numberings" % i))
+                else:
+                    out.append(("gauge/numbering", "after renumbering the vertices / rotating the faces the frame of face %d differs by "
+                                "%.3g although all constraints agree (order %d)" % (i, d, order)))
+        return out
     # vertices: the frame at v measured against each of its own edges (v, w): var[v] * e^{-i order transport(v, w)}
     t1 = {(a, b): complex(c, s) for a, b, c, s in obs["transport"]}
     t2 = {(a, b): complex(c, s) for a, b, c, s in obs2["transport"]}
-    worst0, at0, worst, at = 0.0, None, 0.0, None
+    cworst, fworst = {}, {}
     for (v, w), tw in t1.items():
         pv, pw = vperm[v], vperm[w]
         if (pv, pw) not in t2:
-            return "gauge/numbering", "edge (%d,%d) has no transport after renumbering" % (v, w)
+            return [("gauge/numbering", "edge (%d,%d) has no transport after renumbering" % (v, w))]
         g = (tw.conjugate() ** order, t2[(pv, pw)].conjugate() ** order)
         d0 = abs(z1[v] * g[0] - z2[pv] * g[1])
-        if d0 > worst0:
-            worst0, at0 = d0, v
+        if d0 > TOLM:
+            cworst[v] = max(cworst.get(v, 0.0), d0)
         if abs(abs(f1[v]) - 1) < 1e-6 and abs(abs(f2[pv]) - 1) < 1e-6:
             d = abs(f1[v] * g[0] - f2[pv] * g[1])
-            if d > worst:
-                worst, at = d, v
-    if worst0 > TOLM:
-        cs = vertex_contributions(case, obs, at0)
-        conflict = len(cs) >= 2 and max(abs(a - b) for a in cs for b in cs) > 1e-6
-        if conflict:
-            return "gauge/conflicting-vertex-constraints", (
-                "after renumbering the constraint of vertex %d differs by %.3g (its %d feature edges ask for conflicting "
-                "representation vectors, order %d)" % (at0, worst0, len(cs), order))
-        # the constraint the connection's own (intrinsic, rescaled) edge angles ask for
-        def intrinsic(o, tt, v):
-            acc = 0
-            for e in o["feat"]:
-                A, B = o["edges"][e]
-                if v in (A, B):
-                    acc += tt[(v, B if v == A else A)] ** order
-            return acc / abs(acc) if abs(acc) > 1e-8 else acc
-        mis = max(abs(z1[at0] - intrinsic(obs, t1, at0)), abs(z2[vperm[at0]] - intrinsic(obs2, t2, vperm[at0])))
-        if order % 2 == 0 and case.get("smooth_normals", True) and mis > TOLM:
-            return "gauge/vertex-constraint-projection", (
-                "after renumbering the constraint of vertex %d differs by %.3g: it is built from the extrinsic projection of the "
-                "feature edge on the vertex basis, which is off the connection's own angle of that edge by %.3g (order %d)"
-                % (at0, worst0, mis, order))
-        return "gauge/constraint", ("after renumbering the constraint of vertex %d differs by %.3g (its %d feature edges ask for "
-                                    "equal representation vectors, order %d)" % (at0, worst0, len(cs), order))
-    if worst > TOLM:
-        if at in _tiny_solved(obs) or vperm[at] in _tiny_solved(obs2):
-            return "unit/zero-solution", ("the solved value at vertex %d is numerically zero (just above the 1e-10 threshold): its "
-                                          "normalised direction is round-off noise and differs between numberings" % at)
-        return "gauge/numbering", ("after renumbering the frame of vertex %d differs by %.3g although all constraints agree (order %d)"
-                                   % (at, worst, order))
-    return None
+            if d > TOLM:
+                fworst[v] = max(fworst.get(v, 0.0), d)
+    guarded = order % 2 == 0 and case.get("smooth_normals", True)
+
+    def intrinsic_terms(o, tt, v):
+        return [tt[(v, B if v == A else A)] ** order for A, B in (o["edges"][e] for e in o["feat"]) if v in (A, B)]
+
+    def normed(acc):
+        return acc / abs(acc) if abs(acc) > 1e-8 else acc
+    for v, d0 in sorted(cworst.items()):
+        pv = vperm[v]
+        cs1, cs2 = vertex_contributions(case, obs, v), vertex_contributions(case2, obs2, pv)
+        key, why = "gauge/constraint", "no recorded mechanism explains it"
+        if guarded and len(cs1) >= 2 and any(abs(a + b) < 1e-6 for k, a in enumerate(cs1) for b in cs1[k + 1:]):
+            # recorded mechanism: two cancelling contributions, the skipped update makes the outcome depend on their order
+            o1, o2 = guarded_outcomes(cs1), guarded_outcomes(cs2)
+            if len(o1) > 1 and any(abs(z1[v] - o) < 1e-7 for o in o1) and any(abs(z2[pv] - o) < 1e-7 for o in o2):
+                key, why = "gauge/conflicting-vertex-constraints", "two of its feature edges ask for opposite representation vectors"
+        if key == "gauge/constraint" and guarded and cs1 and not vertex_is_flat(case, v):
+            # recorded mechanism: non-flat vertex, constraint = normalised sum of EXTRINSIC projections in both runs, and the
+            # extrinsic direction of a feature edge is off the connection's own (intrinsic) angle of that edge
+            e1, e2 = normed(sum(cs1)), normed(sum(cs2))
+            i1, i2 = intrinsic_terms(obs, t1, v), intrinsic_terms(obs2, t2, pv)
+            off = max([abs(a - b) for a, b in zip(cs1, i1)] + [abs(a - b) for a, b in zip(cs2, i2)] + [0.0])
+            noconf = not any(abs(a + b) < 1e-6 for k, a in enumerate(cs1) for b in cs1[k + 1:])
+            if noconf and abs(z1[v] - e1) < 1e-7 and abs(z2[pv] - e2) < 1e-7 and off > TOLM:
+                key, why = "gauge/vertex-constraint-projection", ("non-flat vertex: the extrinsic projection of a feature edge is off "
+                                                                  "the connection's own angle of that edge by %.3g" % off)
+        out.append((key, "after renumbering the constraint of vertex %d differs by %.3g (order %d, %d feature edges): %s"
+                    % (v, d0, order, len(cs1), why)))
+    if not cworst:
+        for v, d in sorted(fworst.items()):
+            if v in tiny1 or vperm[v] in tiny2:
+                out.append(("unit/zero-solution-noise", "the solved value at vertex %d is numerically zero (just above the 1e-10 "
+                            "threshold): its normalised direction is round-off noise and differs between numberings" % v))
+            else:
+                out.append(("gauge/numbering", "after renumbering the frame of vertex %d differs by %.3g although all constraints "
+                                               "agree (order %d)" % (v, d, order)))
+    return out
